@@ -270,3 +270,56 @@ Definition check_brace_parse (source : str) (o : brace_obs) : bool :=
 
 Definition check_find_braces (text : str) (o : list (N * str)) : bool :=
   list_eqb (pair_eqb N.eqb str_eqb) (find_braces text) o.
+
+(** ** The patterns this model was written for (pinned against the live ones in Props/C13.v) *)
+
+From RG Require Model.RegexAst.
+Module BracePin.
+  Import RG.Model.RegexAst.
+  Import Coq.Strings.String.
+  Open Scope N_scope.
+
+  Definition digits1 : re := Repeat true 1 None [InSet [CRange 48 57]].
+  Definition digits0 : re := Repeat true 0 None [InSet [CRange 48 57]].
+  Definition blanks1 : re := Repeat true 1 None [InSet [CChar 32; CChar 9]].
+  Definition blanks0 : re := Repeat true 0 None [InSet [CChar 32; CChar 9]].
+
+  (** ((integer)[ \t]+)? (numerator) [ \t]STAR / [ \t]STAR (0STAR [1-9] [0-9]STAR); groups g .. g+3 *)
+  Definition fraction_tree (g : N) : list re :=
+    [ Repeat true 0 (Some 1) [Group (Some g) [Group (Some (g + 1)) [digits1]; blanks1]];
+      Group (Some (g + 2)) [digits1]; blanks0; Lit 47; blanks0;
+      Group (Some (g + 3)) [Repeat true 0 None [Lit 48]; InSet [CRange 49 57]; digits0] ].
+
+  (** ([0-9]+(\.[0-9]STAR)?); groups g, g+1 *)
+  Definition decimal_tree (g : N) : list re :=
+    [ Group (Some g) [digits1; Repeat true 0 (Some 1) [Group (Some (g + 1)) [Lit 46; digits0]]] ].
+
+  (** backslash (.)  |  ([^0-9{}]); groups g, g+1 *)
+  Definition free_alts (g : N) : list (list re) :=
+    [ [Lit 92; Group (Some g) [AnyChar]];
+      [Group (Some (g + 1)) [InSet [CNegate; CRange 48 57; CChar 123; CChar 125]]] ].
+
+  Definition any_part_tree (g : N) : list re :=
+    [ Branch ([fraction_tree g; decimal_tree (g + 4)] ++ free_alts (g + 6)) ].
+
+  Definition flags : list string := ["UNICODE"%string].
+
+  Definition fraction_pattern : regex :=
+    {| rx_flags := flags; rx_tree := fraction_tree 1;
+       rx_groups := [("integer"%string, 2); ("numerator"%string, 3); ("denominator"%string, 4)] |}.
+  Definition decimal_pattern : regex :=
+    {| rx_flags := flags; rx_tree := decimal_tree 1; rx_groups := [("decimal"%string, 1)] |}.
+  Definition free_text_pattern : regex :=
+    {| rx_flags := flags; rx_tree := [Branch (free_alts 1)];
+       rx_groups := [("escaped_char"%string, 1); ("char"%string, 2)] |}.
+  Definition any_part_pattern : regex :=
+    {| rx_flags := flags; rx_tree := any_part_tree 1;
+       rx_groups := [("integer"%string, 2); ("numerator"%string, 3); ("denominator"%string, 4);
+                     ("decimal"%string, 5); ("escaped_char"%string, 7); ("char"%string, 8)] |}.
+  Definition pattern : regex :=
+    {| rx_flags := flags;
+       rx_tree := [Lit 123; Group (Some 1) [Repeat true 0 None (any_part_tree 2)]; Lit 125];
+       rx_groups := [("source"%string, 1); ("integer"%string, 3); ("numerator"%string, 4);
+                     ("denominator"%string, 5); ("decimal"%string, 6); ("escaped_char"%string, 8);
+                     ("char"%string, 9)] |}.
+End BracePin.
